@@ -55,7 +55,7 @@ struct OptDriver : DriverBase<OptDriver<T>> {
     {
     }
 
-    auto raw(int s) -> void* { return arena_prepare(s, sizeof(O), plan.cfg, static_cast<uint64_t>(ctx.step + 1)); }
+    auto raw(int s) -> void* { return arena_prepare(s, sizeof(O), plan.cfg, static_cast<uint64_t>(ctx.step + 1), alignof(O)); }
 
     void create_default(int s)
     {
@@ -591,7 +591,7 @@ struct OptDriver : DriverBase<OptDriver<T>> {
             } else {
                 // the && overload moves out of the optional: exercised on a scratch copy / on the object itself for move-only
                 if constexpr (copyable) {
-                    void* mem = arena_prepare(kTemp, sizeof(O), plan.cfg, 55);
+                    void* mem = arena_prepare(kTemp, sizeof(O), plan.cfg, 55, alignof(O));
                     ok        = call(-1, false, false, [&] {
                         O* tmp = new (mem) O(static_cast<O const&>(v));
                         {
@@ -887,7 +887,7 @@ struct OptRefDriver : DriverBase<OptRefDriver<R>> {
         ctx.step = -1;
         ctx.op   = "create";
         for (int s = 0; s < pool; ++s) {
-            void* mem = arena_prepare(s, sizeof(O), plan.cfg, 1);
+            void* mem = arena_prepare(s, sizeof(O), plan.cfg, 1, alignof(O));
             obj[s]    = ((plan.cfg.create >> s) & 1U) != 0 ? new (mem) O : new (mem) O{};
         }
         for (size_t i = 0; i < plan.steps.size() && !ctx.stop; ++i) {
@@ -988,7 +988,7 @@ struct OptRefDriver : DriverBase<OptRefDriver<R>> {
             }
             default: {
                 obj[a]->~O();
-                void* mem = arena_prepare(a, sizeof(O), plan.cfg, i + 2);
+                void* mem = arena_prepare(a, sizeof(O), plan.cfg, i + 2, alignof(O));
                 bool const fromOther = st.k[0] % 2 == 0;
                 if (fromOther && a != b) {
                     obj[a]   = new (mem) O(*obj[b]);
@@ -1120,7 +1120,7 @@ struct VarDriver : DriverBase<VarDriver<Ts...>> {
         return r;
     }
 
-    auto raw(int s) -> void* { return arena_prepare(s, sizeof(V), plan.cfg, static_cast<uint64_t>(ctx.step + 1)); }
+    auto raw(int s) -> void* { return arena_prepare(s, sizeof(V), plan.cfg, static_cast<uint64_t>(ctx.step + 1), alignof(V)); }
 
     void create_default(int s)
     {
@@ -1296,7 +1296,7 @@ struct VarDriver : DriverBase<VarDriver<Ts...>> {
             // visiting an rvalue variant must hand the visitor an rvalue of the active alternative, whatever its index
             if constexpr (copyable) {
                 int category = 0;
-                void* mem    = arena_prepare(kTemp, sizeof(V), plan.cfg, 31);
+                void* mem    = arena_prepare(kTemp, sizeof(V), plan.cfg, 31, alignof(V));
                 bool okr     = observe("visit-rvalue", [&] {
                     V* tmp = new (mem) V(a);
                     etl::visit(
@@ -1813,7 +1813,7 @@ struct ExpDriver : DriverBase<ExpDriver<T, E>> {
     {
     }
 
-    auto raw(int s) -> void* { return arena_prepare(s, sizeof(X), plan.cfg, static_cast<uint64_t>(ctx.step + 1)); }
+    auto raw(int s) -> void* { return arena_prepare(s, sizeof(X), plan.cfg, static_cast<uint64_t>(ctx.step + 1), alignof(X)); }
 
     void destroy(int s)
     {
